@@ -107,19 +107,25 @@ pub fn run(ctx: &mut Ctx) {
         let mut body = gen::dtls_body(&mut rng, gen::TINY, 0);
         if let ADtlsBody::ClientHello(c) = &mut body {
             c.version = v;
+            // every cookie length 0..255 meets every version byte pattern
+            c.cookie = rng.bytes((v as usize ^ (v as usize >> 8)) & 0xff);
         }
         let m = ADtlsHs::whole(1, body);
         let b = m.to_bytes();
         (matches!(parse_dtls_message_handshake(&b), Ok((rem, g)) if rem.is_empty() && g == m.expected()), b)
     });
     sweep16!(ctx, "dtls.hello_verify_request.version", |v, rng| {
-        let m = ADtlsHs::whole(0, ADtlsBody::HelloVerifyRequest { version: v, cookie: rng.bytes(3) });
+        let m = ADtlsHs::whole(0, ADtlsBody::HelloVerifyRequest { version: v, cookie: rng.bytes((v as usize).wrapping_mul(7) & 0xff) });
         let b = m.to_bytes();
         (matches!(parse_dtls_message_handshake(&b), Ok((rem, g)) if rem.is_empty() && g == m.expected()), b)
     });
     sweep16!(ctx, "dtls.server_hello.version", |v, rng| {
         let mut s = gen::server_hello(&mut rng, gen::TINY);
         s.version = v;
+        // DTLS ServerHello always carries the optional extension block form
+        if v % 3 != 0 {
+            s.ext = Some(rng.bytes((v % 7) as usize));
+        }
         let m = ADtlsHs::whole(2, ADtlsBody::ServerHello(s));
         let b = m.to_bytes();
         (matches!(parse_dtls_message_handshake(&b), Ok((rem, g)) if rem.is_empty() && g == m.expected()), b)
